@@ -35,8 +35,8 @@ BINOPS = ["add", "sub", "mul", "div", "pow", "min", "max"]
 AOPS = {"=": "set", "+=": "add", "-=": "sub", "*=": "mul", "/=": "div"}
 TYPES = ["real", "temperature", "stress", "strain", "massdensity", "thermalconductivity", "length", "time"]
 GLOSSARY_IN = ["Temperature", "Porosity", "BurnUp_AtPercent", "Pressure", "GrainSize", "NeutronFluence", "HydrostaticPressure"]
-GLOSSARY_PAR = ["YoungModulus", "PoissonRatio", "ShearModulus", "YieldStress", "BulkModulus", "NortonCoefficient"]
-GLOSSARY_OUT = ["ThermalConductivity", "SpecificHeat", "ThermalExpansion", "MassDensity", "Viscosity"]
+GLOSSARY_PAR = ["YoungModulus", "PoissonRatio", "ShearModulus", "YieldStress", "BulkModulus", "FirstLameCoefficient"]
+GLOSSARY_OUT = ["ThermalConductivity", "SpecificHeat", "ThermalExpansion", "MassDensity", "Emissivity"]
 
 
 def bits(x):
@@ -461,6 +461,10 @@ def rand_tree(rng, d, depth, allow_out):
     return ("u", op, a)
 
 
+def uses_ref(t, leaf):
+    return t == leaf or any(uses_ref(c, leaf) for c in t[2:] if isinstance(c, tuple))
+
+
 def uses_input(t):
     return t[0] == "i" or any(uses_input(c) for c in t[2:] if isinstance(c, tuple))
 
@@ -525,8 +529,16 @@ def rand_desc(rng, idx, kind, vclass):
             for j in range(ns):
                 aop = "set" if j == 0 else rng.choice(["set", "add", "sub", "mul", "div"])
                 body.append((aop, rand_tree(rng, d, rng.choice([1, 2, 3, 4]), j > 0)))
-            if ns > 1 and all(a == "set" for a, _ in body[1:]) and not any("('o',)" in repr(t) for _, t in body[1:]):
+            if any(a == "set" and not uses_ref(t, ("o",)) for a, t in body[1:]):
                 continue                # earlier statements would be dead
+            # every declared input, parameter and static variable takes part in the value
+            for leaf in [("i", k) for k in range(len(d.inputs))] + [("p", k) for k in range(len(d.params))] + \
+                        [("s", k) for k in range(len(d.statics))]:
+                if not any(uses_ref(t, leaf) for _, t in body):
+                    j = rng.randrange(len(body))
+                    aop, t = body[j]
+                    extra = ("b", "mul", leaf, ("l", lit_short(rng))) if rng.random() < 0.5 else leaf
+                    body[j] = (aop, ("b", rng.choice(["add", "sub"]), t, extra) if rng.random() < 0.7 else ("b", "mul", t, ("b", "add", ("l", "1.0"), extra)))
             d.law = ("fn", body)
             if d.inputs and not any(uses_input(t) for _, t in body):
                 continue
@@ -1060,7 +1072,7 @@ def glue(iface, d):
                 'try { r.v = f(%s); } catch(std::exception&){ r.exc = true; } }},\n') % (n, len(d.inputs), n, sets, call_args)
     sets = "for(const auto& kv : ov){ r.set.push_back(%s_setParameter(kv.first.c_str(), kv.second)); } " % n if d.params else "(void)ov; "
     return ('  {"%s", %d, [](const double* a, const Ov& ov, Result& r){ %smfront_gmp_OutputStatus s; std::memset(&s, 0x5a, sizeof s); '
-            'r.v = %s(&s, a, %d, GENERIC_NONE_POLICY); r.status = s.status; }},\n') % (n, len(d.inputs), sets, n, len(d.inputs))
+            'r.v = %s(&s, a, %d, GENERIC_MATERIALPROPERTY_NONE_POLICY); r.status = s.status; }},\n') % (n, len(d.inputs), sets, n, len(d.inputs))
 
 
 def build_harness(ck, iface, descs, gendir):
@@ -1137,9 +1149,11 @@ def run(ck):
     nfn, ndata = (14, 6) if ck.quick else (220, 80)
     plan = []
     for i in range(nfn):
-        plan.append(("fn", ["short", "short", "medium", "long"][i % 4]))
+        plan.append(("fn", ["short", "medium", "long", "short"][i % 4]))
+    kinds = ["lin", "spl", "const0", "const1", "lin", "spl"]
+    classes = ["long", "long", "long", "medium", "short", "short", "medium", "short"]
     for i in range(ndata):
-        plan.append((["lin", "spl", "const0", "const1", "lin", "spl"][i % 6], ["short", "short", "medium", "long"][(i // 2) % 4]))
+        plan.append((kinds[i % 6], classes[i % 8]))
     descs = [rand_desc(rng, i, k, c) for i, (k, c) in enumerate(plan)]
     gendir = ck.path("gen")
     os.makedirs(gendir, exist_ok=True)
@@ -1262,44 +1276,47 @@ def run(ck):
         return "eval %s %s ; %d %s ; %d %s\n" % (itf, d.enc(spline_d.get(d.law_name)), len(hist),
                                                 " ".join("%s %s" % (k, bits(v)) for k, v in hist), len(a), " ".join(bits(x) for x in a))
 
-    results = {}
-    crashed = []
-    for mode in ("c", "cxx", "generic", "generic-file"):
-        itf = mode.split("-")[0]
-        exe = exes.get(itf)
-        cs = [c for c in calls[mode] if exe]
-        if not cs:
-            continue
-        pi = ck.run([exe], input="".join(line_h(d, a, ov) for (d, a, ov, _, _) in cs), timeout=280,
-                    cwd=filedir if mode == "generic-file" else ck.work)
-        impl = pi.stdout.splitlines()
-        if pi.returncode != 0 or len(impl) != len(cs):
-            crashed.append((mode, pi.returncode, pi.stderr[-1500:]))
-        mo = ck.run([driver], input="".join(line_m(itf, d, a, h) for (d, a, _, h, _) in cs), timeout=280).stdout.splitlines()
-        results[mode] = (cs, impl, mo)
-    for (mode, rc, err) in crashed:
-        ck.violation("harness-crash:" + mode, "the run-time harness of the %s interface aborted (exit %s)" % (mode, rc), {"stderr": err}, False)
-
     hist = {}
     groups = {}
-    evaluations = 0
     distinct = set()
-    finite = 0
     samples = []
     failing_by_law = {}
-    for mode, (cs, impl, mo) in results.items():
+    counters = {"evaluations": 0, "finite": 0, "second_round": 0}
+
+    def execute(batch):
+        """batch: [(mode, calls)]; one harness run per mode, one run of the Lean driver for everything"""
+        out = []
+        for mode, cs in batch:
+            itf = mode.split("-")[0]
+            pi = ck.run([exes[itf]], input="".join(line_h(d, a, ov) for (d, a, ov, _, _) in cs), timeout=280,
+                        cwd=filedir if mode == "generic-file" else ck.work)
+            impl = pi.stdout.splitlines()
+            if pi.returncode != 0 or len(impl) != len(cs):
+                ck.violation("harness-crash:" + mode, "the run-time harness of the %s interface aborted (exit %s)" % (mode, pi.returncode),
+                             {"stderr": pi.stderr[-1500:]}, False)
+            out.append(impl)
+        mo = ck.run([driver], input="".join(line_m(mode.split("-")[0], d, a, h) for mode, cs in batch for (d, a, _, h, _) in cs),
+                    timeout=280).stdout.splitlines()
+        k = 0
+        res = []
+        for (mode, cs), impl in zip(batch, out):
+            res.append((mode, cs, impl, mo[k:k + len(cs)]))
+            k += len(cs)
+        return res
+
+    def compare(mode, cs, impl, mo):
         itf = mode.split("-")[0]
         for i, (d, a, ov, h, kind) in enumerate(cs):
             if i >= len(impl):
                 break
-            evaluations += 1
+            counters["evaluations"] += 1
             got = impl[i].split()
             mod = mo[i].split() if i < len(mo) else ["missing", "missing"]
             pv, codes = effective(d, h, itf)
             val, eflag = judge_law(d, a, pv, spline_d.get(d.law_name))
             nonfinite = val != val or abs(val) == float("inf")
             if not nonfinite and not eflag:
-                finite += 1
+                counters["finite"] += 1
                 exp_v, exp_s = bits(val), "0"
             elif itf == "c":
                 exp_v, exp_s = "nan", "0"
@@ -1313,9 +1330,9 @@ def run(ck):
             distinct.add((d.fname, mode, tuple(a), tuple(h)))
             if len(samples) < 8 and i % max(1, len(cs) // 3) == 0:
                 samples.append("%s[%s](%s) overrides=%s -> %s" % (d.fname, mode, ", ".join(repr(x) for x in a), h, impl[i]))
-            lean_v = bits(val) if (mod[0] == bits(val) and mod[1] == bits(val)) else None
+            lean_ok = len(mod) == 2 and mod[0] == bits(val) and mod[1] == bits(val)
             ok_impl = len(got) == 3 and got[0] == exp_v and got[1] == exp_s and got[2] == exp_codes
-            if ok_impl and lean_v is not None:
+            if ok_impl and lean_ok:
                 continue
             rep = {"law": d.fname, "interface": itf, "channel": kind, "mfront_file": d.texts["mfront"],
                    "arguments": [repr(x) for x in a], "arguments_bits": [bits(x) for x in a],
@@ -1326,7 +1343,13 @@ def run(ck):
             if mode == "generic-file":
                 rep["parameters_file"] = {"name": d.fname + "-parameters.txt", "content": file_ov.get(d.fname)}
             td = text_diffs.get((d.law_name, itf))
-            if not ok_impl:
+            if ok_impl:
+                groups.setdefault("corr:lean-model:%s" % itf, ("corr", "Lean model answers `%s` where the implementation and the independent "
+                                                                       "evaluation agree on %s" % (" ".join(mod), exp_v), rep))
+            elif not lean_ok and len(mod) == 2 and mod[0] == mod[1] and got and got[0] == mod[0] and exp_s == "0":
+                groups.setdefault("corr:judge:%s" % itf, ("corr", "the implementation and the Lean model agree on %s, the independent evaluation of "
+                                                                  "checks/C37.py gives %s" % (got[0], exp_v), rep))
+            else:
                 if td:
                     rep["emitted_vs_model"] = td[1]
                     key = "%s:%s" % (site_file(itf, td, d), td[0])
@@ -1338,9 +1361,30 @@ def run(ck):
                         d.fname, itf, " (%s)" % kind if kind != "defaults" else "", describe(got), ", ".join(repr(x) for x in a),
                         " after overrides %s" % h if h else "", val, td[1] if td else "no difference at text level")
                     groups[key] = ("viol", what, rep)
+
+    ck.log("calling the compiled functions")
+    for (mode, cs, impl, mo) in execute([(m, calls[m]) for m in ("c", "cxx", "generic", "generic-file")
+                                         if exes.get(m.split("-")[0]) and calls[m]]):
+        compare(mode, cs, impl, mo)
+    # second round: a text-level difference whose law/interface passed every call so far gets more calls
+    extra = {}
+    for (ln, itf) in sorted(text_diffs):
+        if (ln, itf) in failing_by_law or not exes.get(itf):
+            continue
+        d = [x for x in descs if x.law_name == ln][0]
+        for _ in range(40):
+            if d.law[0] in ("lin", "spl"):
+                xs = [float(p[0]) for p in sorted_pts(d)]
+                a = [rng.uniform(xs[0] - 5, xs[-1] + 5)]
             else:
-                groups.setdefault("corr:lean-model:%s" % itf, ("corr", "Lean model answers `%s` where the implementation and the independent "
-                                                                       "evaluation agree on %s" % (" ".join(mod), exp_v), rep))
+                a = sample_args(rng, d)
+            extra.setdefault(itf, []).append((d, a, [], [], "defaults"))
+    counters["second_round"] = sum(len(cs) for cs in extra.values())
+    if extra:
+        for (mode, cs, impl, mo) in execute(sorted(extra.items())):
+            compare(mode, cs, impl, mo)
+    ck.log("run level done")
+    evaluations, finite = counters["evaluations"], counters["finite"]
     # text-level differences without a failing call of the same law/interface
     for (ln, itf), td in sorted(text_diffs.items()):
         d = [x for x in descs if x.law_name == ln][0]
@@ -1379,6 +1423,7 @@ def run(ck):
         "constant_classes": {c: sum(1 for p in plan if p[1] == c) for c in ("short", "medium", "long")},
         "ir_compared": len(descs) * 3, "ir_differences": len(text_diffs), "ir_parse_errors": len(parse_errors),
         "spline_slopes_checked": slope_checks, "finite_bit_exact_comparisons": finite,
+        "second_round_calls": counters["second_round"],
         "histogram": dict(sorted(hist.items())), "samples": samples,
     })
 
